@@ -336,6 +336,8 @@ m("C09-r6a", "C09", "libwallet/src/slate_versions/ser.rs", "\t\tif !is_hex(&stri
 m("C09-r6b", "C09", "api/src/types.rs", "\t\tif !self.nonce.is_ascii() {\n\t\t\treturn Err(Error::APIEncryption(\n\t\t\t\t\"EncryptedBody Dec: Invalid Nonce\".to_string(),\n\t\t\t));\n\t\t}\n", "", "C09.R6")
 m("C09-r6c", "C09", "libwallet/src/slate_versions/v4.rs", "\t\tdeserialize_with = \"ser::blind_from_hex\"", "\t\tdeserialize_with = \"secp_ser::blind_from_hex\"", "C09.R6")
 
+m("C14-r10", "C14", "api/src/owner.rs", "\t\tlc.open_wallet(name, password, use_mask, self.doctest_mode)", "\t\tlc.open_wallet(name, password, use_mask, use_mask)", "C14.R10")
+
 
 def for_property(prop):
     return [x for x in M if x["property"] == prop]
